@@ -31,6 +31,18 @@ def copy_repo(dst):
 
 
 def apply(root, m):
+    if m.get("revert"):
+        # undo one /repo commit (typically a `fix:` commit) in the scratch copy
+        shas = m["revert"] if isinstance(m["revert"], list) else [m["revert"]]
+        for sha in shas:
+            d = subprocess.run(["git", "-C", REPO, "show", "--format=", sha], stdout=subprocess.PIPE, text=True)
+            if d.returncode != 0:
+                return False
+            r = subprocess.run(["patch", "-R", "-p1", "-s", "--no-backup-if-mismatch", "-d", root], input=d.stdout, text=True,
+                               stdout=subprocess.PIPE, stderr=subprocess.STDOUT)
+            if r.returncode != 0:
+                return False
+        return True
     edits = m.get("edits") or [m]
     texts = {}
     for e in edits:
@@ -62,7 +74,7 @@ def run_check(prop, root, tier="quick"):
 
 
 def conflicts(a, b):
-    if "edits" in a or "edits" in b:
+    if "edits" in a or "edits" in b or "revert" in a or "revert" in b:
         return True
     return a["file"] == b["file"] and (a["find"] in b["find"] or b["find"] in a["find"])
 
